@@ -145,6 +145,20 @@ func record(seed int64, tier, out string) {
 				w.Emit(ev.M{"ev": "Dec", "id": id, "hist": hi, "step": s, "hdr": 2, "pdu": ev.Ints(pdu), "plain": ev.Ints(dplain), "count": int(cnt), "obs": obs})
 				id++
 			}
+			if s%64 == 13 && !h.resets[s] && !h.resets[s+1] {
+				// an authentication run while the context is in use (re-authentication, a repeated challenge): keys are derived anew, the
+				// counters of the context in use go on (the next sends do not take a new context into use)
+				var autn [16]uint8
+				copy(autn[:], ev.Bytes(r, 16))
+				subs := ue.AuthenticationSubs
+				if subs.PermanentKey == nil {
+					subs = tglib.GetAuthSubscription("000102030405060708090a0b0c0d0e0f", "cdc202d5123e20f62b6d676ac72cb318", "")
+				}
+				ev.Catch(func() { ue.DeriveRESstarAndSetKey(subs, autn, ev.Bytes(r, 16), "5G:mnc093.mcc208.3gppnetwork.org", "93", "208") })
+				w.Emit(ev.M{"ev": "Rekey", "id": id, "hist": hi, "step": s, "kenc": ev.Ints(ue.KnasEnc[:]), "kint": ev.Ints(ue.KnasInt[:]),
+					"ul": int(ue.ULCount.Get()), "dl": int(ue.DLCount.Get())})
+				id++
+			}
 			if s == 8 || s == 9 {
 				// a send that must be refused (a message type without an encoder; octets that are no NAS message): nothing is sent, so
 				// no NAS COUNT may be consumed
